@@ -25,7 +25,7 @@ RULE = ("molecule pairs written by the harness as .xyz/.gro/.pdb (1-12 atoms of 
 ASSUMPTIONS = ["coordinates pass through MDAnalysis float32 storage: tolerance 5e-5 A + 4e-7*|x|", "centres of mass use MDAnalysis' own guessed masses",
                "a Pseudotrajectory object is generated once (the documented use)"]
 EXHAUSTIVE = {"quick": False, "thorough": False}
-MIN_NONTRIVIAL = {"quick": 15, "thorough": 150}
+MIN_NONTRIVIAL = {"quick": 15, "thorough": 600}
 SHARD_TIMEOUT = {"quick": 900, "thorough": 3600}
 
 
@@ -266,7 +266,7 @@ def drive(pts, io, d, rng, nprng, tier, idx):
 
 
 def shards(tier, seed):
-    n, per = (8, 10) if tier == "quick" else (16, 40)
+    n, per = (8, 10) if tier == "quick" else (16, 150)
     return [{"rseed": seed * 1000 + i, "count": per} for i in range(n)]
 
 
